@@ -64,7 +64,10 @@ class P:
         small = [("ref", "f0"), ("call", "f0", [("lit", "1")]), ("call", "g0", [("lit", "1")]), ("un", "!!", ("lit", "1")),
                  ("bin", "<>", ("lit", "1"), ("lit", "2")), ("post", ("lit", "1"), "+++"),
                  ("bin", "=", ("ref", "v"), ("ref", "f0")), ("list", [("ref", "f0"), ("ref", "f1")]),
-                 ("bin", "<~", ("ref", "v"), ("lit", "3"))]
+                 ("bin", "<~", ("ref", "v"), ("lit", "3")),
+                 # assignment TARGETS that are context functions: the read of the target is a handler invocation like any other
+                 ("bin", "=", ("ref", "f0"), ("lit", "1")), ("bin", "+=", ("ref", "f0"), ("lit", "1")), ("bin", "<~", ("ref", "f1"), ("lit", "3")),
+                 ("bin", "=", ("ref", "f0"), ("ref", "f1")), ("bin", "=", ("ref", "f0"), ("call", "g0", [("ref", "f0")]))]
         progs_list = [[t] for t in small] + [[("bin", "=", ("ref", "w"), ("lit", "9")), t, ("bin", "=", ("ref", "v"), ("lit", "8"))] for t in small]
         for _ in range(ntrees):
             progs_list.append([tree_with_ops(rng, rng.choice([2, 3])) for _ in range(rng.choice([1, 2, 3]))])
